@@ -55,14 +55,7 @@ func tableConcat(L *LState) int {
 	sep := LString(L.OptString(2, ""))
 	i := L.OptInt(3, 1)
 	j := L.OptInt(4, tbl.Len())
-	if L.GetTop() == 3 {
-		if i > tbl.Len() || i < 1 {
-			L.Push(emptyLString)
-			return 1
-		}
-	}
-	i = intMax(i, 1)
-	j = intMin(intMin(j, tbl.Len()), tbl.Len())
+	// no clamping: an index outside the list reads nil, which is the error below (as in ltablib.c)
 	if i > j {
 		L.Push(emptyLString)
 		return 1
